@@ -547,7 +547,167 @@ func (e *Enc) loopCands(fr *Frame, li *loopInfo) []*invCand {
 			}
 		}
 	}
+	if !fr.inl {
+		e.elementTemplates(fr, li)
+	}
 	return li.cands
+}
+
+// headValue re-evaluates, in state st at the loop head, a value the loop body recomputes each iteration
+// (a load of a field of an object that exists before the loop), or returns a value defined before the loop.
+func (e *Enc) headValue(fr *Frame, li *loopInfo, v ssa.Value, st *State) (string, bool) {
+	switch v.(type) {
+	case *ssa.Parameter, *ssa.FreeVar, *ssa.Global, *ssa.Const:
+		return e.val(fr, v), true
+	}
+	if in, ok := v.(ssa.Instruction); ok && in.Block() != nil && !li.body[in.Block()] && in.Block().Dominates(li.head) {
+		if t, ok := fr.vals[v]; ok {
+			return t, true
+		}
+		return "", false
+	}
+	if u, ok := v.(*ssa.UnOp); ok && u.Op.String() == "*" {
+		if fa, ok := u.X.(*ssa.FieldAddr); ok {
+			base, ok := e.headValue(fr, li, fa.X, st)
+			if !ok {
+				return "", false
+			}
+			t, s, ok := derefStruct(fa.X.Type())
+			if !ok {
+				return "", false
+			}
+			h := e.fieldHeap(t, s, fa.Field)
+			return e.sel(e.view(st, h), h, Loc{base}), true
+		}
+	}
+	return "", false
+}
+
+func isStructPtr(t types.Type) bool {
+	p, ok := t.Underlying().(*types.Pointer)
+	if !ok {
+		return false
+	}
+	_, ok = p.Elem().Underlying().(*types.Struct)
+	return ok
+}
+
+// elementTemplates: candidate invariants for the canonical element-wise loops
+// (dst[i] = f(src[i]);  dst[k] = f(v) for k, v := range src). Kept only if inductive (Houdini).
+func (e *Enc) elementTemplates(fr *Frame, li *loopInfo) {
+	var rangeIdx *ssa.Phi
+	for _, in := range li.head.Instrs {
+		if ph, ok := in.(*ssa.Phi); ok && ph.Comment == "rangeindex" {
+			rangeIdx = ph
+		}
+	}
+	var blocks []*ssa.BasicBlock
+	for _, b := range fr.fn.Blocks {
+		if li.body[b] {
+			blocks = append(blocks, b)
+		}
+	}
+	n := 0
+	for _, b := range blocks {
+		for _, in := range b.Instrs {
+			if n >= 12 {
+				return
+			}
+			switch x := in.(type) {
+			case *ssa.Store:
+				ia, ok := x.Addr.(*ssa.IndexAddr)
+				if !ok || !isStructPtr(x.Val.Type()) {
+					continue
+				}
+				sl, ok := ia.X.Type().Underlying().(*types.Slice)
+				if !ok {
+					continue
+				}
+				// index must be rangeindex+1 or a counting phi of this head
+				var bound func(phiVal func(*ssa.Phi) string) string
+				if bo, ok := ia.Index.(*ssa.BinOp); ok && rangeIdx != nil && bo.X == ssa.Value(rangeIdx) && isConst(bo.Y) {
+					bound = func(pv func(*ssa.Phi) string) string { return "(+ " + pv(rangeIdx) + " 1)" }
+				} else if ph, ok := ia.Index.(*ssa.Phi); ok && ph.Block() == li.head {
+					bound = func(pv func(*ssa.Phi) string) string { return pv(ph) }
+				} else {
+					continue
+				}
+				n++
+				X := ia.X
+				h := e.elemHeap(sl.Elem())
+				e.n++
+				c := &invCand{id: e.n, auto: true, name: fmt.Sprintf("loop %d auto elems-owned(%s)", li.ord, e.exprText(x.Pos(), "assign", "index"))}
+				c.eval = func(st *State, pv func(*ssa.Phi) string) (string, error) {
+					xs, ok := e.headValue(fr, li, X, st)
+					if !ok {
+						return "", fmt.Errorf("no head value")
+					}
+					q := e.fresh("q_j")
+					e.quant++
+					el := e.sel(e.view(st, h), h, Loc{"(sarr " + xs + ")", "(+ (soff " + xs + ") " + q + ")"})
+					e.quant--
+					return fmt.Sprintf("(forall ((%s Int)) (=> (and (<= 0 %s) (< %s %s)) (or (= %s 0) (>= %s %s))))", q, q, q, bound(pv), el, el, fr.a0), nil
+				}
+				li.cands = append(li.cands, c)
+			case *ssa.MapUpdate:
+				mt, ok := x.Map.Type().Underlying().(*types.Map)
+				if !ok {
+					continue
+				}
+				M := x.Map
+				d, vh, _ := e.mapHeaps(mt)
+				if isStructPtr(mt.Elem()) {
+					n++
+					e.n++
+					c := &invCand{id: e.n, auto: true, name: fmt.Sprintf("loop %d auto mapelems-owned(%s)", li.ord, e.exprText(x.Pos(), "assign", "index"))}
+					c.eval = func(st *State, pv func(*ssa.Phi) string) (string, error) {
+						ms, ok := e.headValue(fr, li, M, st)
+						if !ok {
+							return "", fmt.Errorf("no head value")
+						}
+						q := e.fresh("q_k")
+						e.quant++
+						in := e.sel(e.view(st, d), d, Loc{ms, q})
+						el := e.sel(e.view(st, vh), vh, Loc{ms, q})
+						e.quant--
+						return fmt.Sprintf("(forall ((%s %s)) (=> %s (or (= %s 0) (>= %s %s))))", q, e.d.sortOf(mt.Key()), in, el, el, fr.a0), nil
+					}
+					li.cands = append(li.cands, c)
+				}
+				// keys of the destination come from the ranged source map
+				if ex, ok := x.Key.(*ssa.Extract); ok && ex.Index == 1 {
+					if nx, ok := ex.Tuple.(*ssa.Next); ok && nx.Block() == li.head {
+						if rg, ok := nx.Iter.(*ssa.Range); ok {
+							if smt, ok := rg.X.Type().Underlying().(*types.Map); ok && types.Identical(smt.Key(), mt.Key()) {
+								n++
+								S := rg.X
+								sd, _, _ := e.mapHeaps(smt)
+								e.n++
+								c := &invCand{id: e.n, auto: true, name: fmt.Sprintf("loop %d auto keys-from-source(%s)", li.ord, e.exprText(x.Pos(), "assign", "index"))}
+								c.eval = func(st *State, pv func(*ssa.Phi) string) (string, error) {
+									ms, ok := e.headValue(fr, li, M, st)
+									if !ok {
+										return "", fmt.Errorf("no head value")
+									}
+									ss, ok := e.headValue(fr, li, S, st)
+									if !ok {
+										return "", fmt.Errorf("no head value")
+									}
+									q := e.fresh("q_k")
+									e.quant++
+									in := e.sel(e.view(st, d), d, Loc{ms, q})
+									sin := e.sel(e.view(st, sd), sd, Loc{ss, q})
+									e.quant--
+									return fmt.Sprintf("(forall ((%s %s)) (=> %s (and (not (= %s 0)) %s)))", q, e.d.sortOf(mt.Key()), in, ss, sin), nil
+								}
+								li.cands = append(li.cands, c)
+							}
+						}
+					}
+				}
+			}
+		}
+	}
 }
 
 func phiName(p *ssa.Phi) string {
@@ -818,6 +978,9 @@ func (e *Enc) verifyFunc() {
 					continue
 				}
 				fam := "POST"
+				if cl.Family != "" {
+					fam = cl.Family
+				}
 				o := e.addOb(fr, fam, "ensures", r.instr.Pos(), cl.Text+" @return "+e.retText(r.instr, ri), fm, false)
 				o.tags = cl.Tags
 				o.clause = cl.Name
